@@ -9,7 +9,7 @@ from .c03 import make_prefix_free
 
 PROP = "C06"
 LEVEL = "exploration"
-CASES = {"quick": 640, "thorough": 32000}
+CASES = {"quick": 640, "thorough": 160000}
 SHARDS = {"quick": 8, "thorough": 16}
 ANCHORS = ["api.py:Converter.standardize_prefix", "api.py:Converter.standardize_curie", "api.py:Converter.standardize_uri"]
 DECIDING = ["query-model:standardize_prefix", "query-model:standardize_curie", "query-model:standardize_uri", "idempotence"]
